@@ -236,6 +236,11 @@ func ruleCutCheck(c *Ctx) {
 						}
 					}
 				}
+				// ... or, on the effect normal form (the call may sit in a closure or take a loop variable over a
+				// list of positions), its first argument designates a position below the element
+				if class != "desc" && c.simCallDescends(fam, fd, call, elemParam) {
+					class = "desc"
+				}
 				if class != "desc" {
 					// does a followed reference precede the call?
 					followed := false
@@ -1691,4 +1696,27 @@ func (c *Ctx) normalisedObj(fd *ast.FuncDecl, o types.Object) bool {
 		return true
 	})
 	return id != nil && c.isNormalisedRef(fd, id, nil, 0)
+}
+
+// simCallDescends: on every happy path of fd on which the call is made, its first argument designates a
+// position strictly below the element being expanded.
+func (c *Ctx) simCallDescends(fam *expFamily, fd *ast.FuncDecl, call *ast.CallExpr, elem types.Object) bool {
+	paths, ok := c.expanderHappyPaths(fam, fd)
+	if !ok {
+		return false
+	}
+	seen, all := 0, true
+	for _, p := range paths {
+		for _, e := range p.effs {
+			if e.kind != "call" || e.call.call != call || len(e.call.args) == 0 {
+				continue
+			}
+			seen++
+			pos, ok := c.posBelow(fam, e.call.args[0], elem, 0)
+			if !ok || len(pos) == 0 {
+				all = false
+			}
+		}
+	}
+	return seen > 0 && all
 }
